@@ -101,6 +101,11 @@ struct BmpStream : Family {
 		if (o != OkOut) ctx.fail("C08.valid", "a well-formed " + std::to_string(m.bits) + "-bit " + std::to_string(m.w) + "x" + std::to_string(m.h) + " bitmap with " + std::to_string(m.palette.size()) + " palette entries was not read (backend " + backend + "): " + what);
 		o = callLib(plan, [&] { bf.Validate(); }, &what);
 		if (o != OkOut) ctx.fail("C08.valid", "bitmap returned by the reader fails the library's own validation: " + what);
+		// value semantics: from here on the run works on the object itself, a copy, or an object moved out of a copy
+		if (plan.seed % 3) {
+			o = callLib(plan, [&] { BitmapFile c(bf); if (plan.seed % 3 == 1) { BitmapFile d(std::move(c)); bf = d; } else bf = c; }, &what);
+			if (o != OkOut) ctx.fail("C08.geometry", "copying a bitmap failed: " + what);
+		}
 		// geometry
 		if (bf.imageHeader.width < 0 || bf.imageHeader.width != m.w) ctx.fail("C08.geometry", "width " + std::to_string(bf.imageHeader.width) + ", file says " + std::to_string(m.w));
 		if (bf.imageHeader.height != m.h || bf.imageHeader.bitCount != m.bits) ctx.fail("C08.geometry", "height/depth " + std::to_string(bf.imageHeader.height) + "/" + std::to_string(bf.imageHeader.bitCount));
@@ -285,12 +290,26 @@ struct TilesetStream : Family {
 					// determined by the picture alone: the other orientation of the same picture gives the same bytes
 					BitmapFile other;
 					{ Armed a; other = makeBitmap(!bottomUp); }
-					std::vector<uint8_t> bytes2 = writeVia(plan, ctx, "dyn", "t2", "C09.bytes-reference", [&](Stream::Writer& w) { Tileset::WriteCustomTileset(w, other); });
+					std::vector<uint8_t> bytes2;
+					if (mix64(plan.seed, oi) % 3 == 0) {
+						// rvalue-reference overload with a temporary file writer
+						o = callLib(plan, [&] { Tileset::WriteCustomTileset(Stream::FileWriter("_w/t2r.bin"), other); }, &what);
+						if (o != OkOut || !disk::get("_w/t2r.bin", bytes2)) ctx.fail("C09.bytes-reference", "WriteCustomTileset(Writer&&) failed: " + what);
+					} else bytes2 = writeVia(plan, ctx, "dyn", "t2", "C09.bytes-reference", [&](Stream::Writer& w) { Tileset::WriteCustomTileset(w, other); });
 					if (bytes2 != bytes) ctx.fail("C09.bytes-reference", "the same picture stored bottom-up and top-down produces different custom tileset bytes");
 				}
 				BitmapFile back;
 				uint64_t posAfter = 0;
-				o = callLib(plan, [&] { ReaderBox b = openBackend(backend, bytes, "tr", plan.seed ^ oi); back = Tileset::ReadTileset(*b.rd); posAfter = b.rd->Position(); }, &what);
+				// the load goes through the format-detecting loader, its rvalue-reference overload, or (custom bytes) the direct loader
+				uint64_t route = mix64(plan.seed, oi * 7 + 1) % 4;
+				o = callLib(plan, [&] {
+					if (route == 1) { back = Tileset::ReadTileset(Stream::MemoryReader(bytes.data(), bytes.size())); return; }
+					ReaderBox b = openBackend(backend, bytes, "tr", plan.seed ^ oi);
+					if (route == 2 && v == "custom") back = Tileset::ReadCustomTileset(*b.rd);
+					else if (route == 3 && v == "custom") { back = Tileset::ReadCustomTileset(Stream::MemoryReader(bytes.data(), bytes.size())); return; }
+					else back = Tileset::ReadTileset(*b.rd);
+					posAfter = b.rd->Position();
+				}, &what);
 				if (o != OkOut) ctx.fail(v == "custom" ? "C09.custom-roundtrip" : "C09.bmp-equals-custom", "tileset stored as " + std::string(v == "custom" ? "custom format" : "standard bitmap") + " was not loaded: " + what);
 				std::string why;
 				if (!samePicture(back, t, why)) ctx.fail(v == "custom" ? "C09.custom-roundtrip" : "C09.bmp-equals-custom", "picture loaded from the " + std::string(v == "custom" ? "custom format" : "standard bitmap") + " differs: " + why);
@@ -314,7 +333,7 @@ struct TilesetStream : Family {
 				Out o = callLib(plan, [&] {
 					ReaderBox b = openBackend(backend, content, "pk", plan.seed ^ oi);
 					b.rd->Seek(start);
-					try { got = Tileset::PeekIsCustomTileset(*b.rd); } catch (...) { posAfter = b.rd->Position(); lenAfter = b.rd->Length(); throw; }
+					try { got = (mix64(plan.seed, oi) % 3 == 0) ? Tileset::PeekIsCustomTileset(std::move(*b.rd)) : Tileset::PeekIsCustomTileset(*b.rd); } catch (...) { posAfter = b.rd->Position(); lenAfter = b.rd->Length(); throw; }
 					posAfter = b.rd->Position();
 					lenAfter = b.rd->Length();
 				}, &what);
@@ -403,6 +422,11 @@ struct PrtStream : Family {
 		}, &what);
 		if (o != OkOut) ctx.fail("C10.roundtrip-equal", "a well-formed PRT (" + std::to_string(m.palettes.size()) + " palettes, " + std::to_string(m.images.size()) + " images, " + std::to_string(m.anims.size()) + " animations) was not read: " + what);
 		if (posAfter != bytes.size()) ctx.fail("C10.roundtrip-equal", "reader consumed " + std::to_string(posAfter) + " of " + std::to_string(bytes.size()) + " bytes");
+		// value semantics: the rest of the run works on the object itself, a copy, or an object moved out of a copy
+		if (plan.seed % 3) {
+			o = callLib(plan, [&] { ArtFile c(art); if (plan.seed % 3 == 1) { ArtFile d(std::move(c)); art = d; } else art = c; }, &what);
+			if (o != OkOut) ctx.fail("C10.roundtrip-equal", "copying an ArtFile failed: " + what);
+		}
 		// cross-field rules on the result
 		for (size_t i = 0; i < art.imageMetas.size(); ++i) {
 			const auto& im = art.imageMetas[i];
